@@ -182,7 +182,7 @@ class DeferredDomain(ObjectDomain):
             if fn is None:
                 work.append(s)
                 continue
-            for r in self.apply(interp, fn, [res[1]] + list(pos), list(kw), s, fr):
+            for r in self.apply_refs(interp, fn, [res[1]] + list(pos), list(kw), s, fr):
                 oc, s2 = self._to_outcome(r)
                 work.append(s2.set(f"dfr.{d[1]}", oc))
         return list(dict.fromkeys(done))
@@ -195,9 +195,11 @@ class DeferredDomain(ObjectDomain):
                 out.append(r)
                 continue
             pos = []
-            for a, v in zip(call.args, r.value[: len(call.args)]):
+            for i_, (a, v) in enumerate(zip(call.args, r.value[: len(call.args)])):
                 if isinstance(a, ast.Starred) and isinstance(v, tuple) and v[:1] == ("tuple",):
                     pos.extend(v[1:])
+                elif i_ >= 1 and name in ("addCallback", "addErrback", "addBoth"):
+                    pos.append(self.ref_or_value(interp, a, v, r.state, fr))   # extra callback arguments are aliases, not copies
                 else:
                     pos.append(v)
             kw = []
@@ -205,7 +207,7 @@ class DeferredDomain(ObjectDomain):
                 if k.arg is None and isinstance(v, tuple) and v[:1] == ("kwdict",):
                     kw.extend(v[1])
                 elif k.arg is not None:
-                    kw.append((k.arg, v))
+                    kw.append((k.arg, self.ref_or_value(interp, k.value, v, r.state, fr) if name in ("addCallback", "addErrback", "addBoth") else v))
             s = r.state
             key = f"dfr.{dv[1]}"
             if name in ("callback", "errback"):
@@ -257,7 +259,7 @@ class DeferredDomain(ObjectDomain):
                 if r.kind == "exc":
                     out.append(r)
                 else:
-                    e_ = r.value[0] if r.value else r.state.get(fr.local("<handling>"), ("exc", "current"))
+                    e_ = r.value[0] if r.value else r.state.get("<handling>", ("exc", "current"))
                     out.append(val(("failure", e_), r.state))
             return out
         if isinstance(f_, ast.Attribute) and f_.attr == "raiseException" and not call.args:
